@@ -184,8 +184,13 @@ class _AttrsObj:
     pass
 
 
-def _contains_marker(it2, o, item):
-    return o.fields['marker']
+def _contains_code(it2, o, item):
+    """`code in attributes` for the four codes _parse_payload asks about"""
+    f = o.fields
+    r = False
+    for code, name in ((0xFFFF, 'marker'), (1, 'has_origin'), (2, 'has_aspath'), (3, 'has_nexthop')):
+        r = z_or(r, z_and(it2.equals(item, code, None), f[name]))
+    return simp(r)
 
 
 def _extend_withdraws(it, args, kwargs, fr, node):
@@ -197,22 +202,26 @@ contract(
     UC,
     'UpdateCollection._parse_payload',
     props=('C08',),
-    segment={'from': 'if Attribute.CODE.INTERNAL_TREAT_AS_WITHDRAW in attributes:', 'to': None},
+    segment={'from': 'if announces and (', 'to': None},
     params={
         'cls': const(None),
-        'attributes': obj(None, marker=bool_(), **{'contains!': const(_contains_marker)}),
+        'attributes': obj(None, marker=bool_(), has_origin=bool_(), has_aspath=bool_(), has_nexthop=bool_(), **{'contains!': const(_contains_code)}),
         'announces': seq(obj(None, nlri=obj(None))),
+        'announced_view': bytes_(0, 4096),
         'withdraws': obj(None),
     },
     ghost={'moved': const(False)},
     callees={'withdraws.extend': _extend_withdraws, 'cls': lambda it, a, k, fr, n: VTuple(a)},
+    lets={'missing': 'len(announces) > 0 and (not attributes.has_origin or not attributes.has_aspath or (len(announced_view) > 0 and not attributes.has_nexthop))'},
     ensures=[
-        # RFC 7606: marker present => nothing is announced, and the announced NLRI were handed to the withdraw list
-        'implies(attributes.marker, len(result[0]) == 0 and moved)',
-        'implies(not attributes.marker, result[0] is announces and not moved)',
+        # RFC 7606: treat-as-withdraw marker, or (section 3.d) routes announced without ORIGIN / AS_PATH / (NEXT_HOP when the
+        # NLRI field is used) => nothing is announced, and the announced NLRI were handed to the withdraw list
+        'implies(attributes.marker or missing, len(result[0]) == 0)',
+        'implies((attributes.marker or missing) and len(announces) > 0, moved)',
+        'implies(not attributes.marker and not missing, result[0] is announces and not moved)',
     ],
-    notes=['segment contract: only the final treat-as-withdraw conversion of _parse_payload; the NLRI loops above it are covered by the bounded corruption sweep'],
-    canaries=[('announces = []', 'announces = announces')],
+    notes=['segment contract: the two final treat-as-withdraw conversions of _parse_payload (missing mandatory attribute, malformed-attribute marker); the NLRI loops above them are covered by the bounded corruption sweep'],
+    canaries=[("or Attribute.CODE.AS_PATH not in attributes", "or False"), ("            withdraws.extend(routed.nlri for routed in announces)\n            announces = []\n\n        return cls(", "            withdraws.extend(routed.nlri for routed in announces)\n            announces = announces\n\n        return cls(")],
 )
 
 
